@@ -16,7 +16,24 @@ def generate(rng, tier):
     cases = []
     for i in range(n):
         win = ["grid", "between", "outside", "lo_only", "hi_only", "hi_grid", "none", "near", "near"][i % 9]
-        cases.append(F.gen_ft_case(rng, tier, lorch=(i % 3 == 0), channel=2, win=win))
+        c = F.gen_ft_case(rng, tier, lorch=(i % 3 == 0), channel=2, win=win)
+        if i % 10 == 4 and len(c["xin"]) >= 3:
+            # a grid with points on both sides of zero and a window edge exactly at 0.0
+            k = len(c["xin"]) // 2
+            shift = c["xin"][k]
+            c["xin"] = [v - shift for v in c["xin"]]
+            c["int_dtype"] = [False, c["int_dtype"][1], c["int_dtype"][2]]
+            if (i // 10) % 2 == 0:
+                c["xmin"], c["xmax"] = 0.0, (None if c["lorch"] else c["xin"][-1])
+                if c["lorch"]:
+                    c["xmax"] = c["xin"][-1]
+            else:
+                c["xmin"], c["xmax"] = c["xin"][0], 0.0
+                c["lorch"] = False            # Lorch with an upper limit of 0 is pi/0
+                c["desc"]["lorch"] = False
+            c["desc"]["window"] = "edge_at_zero"
+            c["desc"]["zero_on_grid"] = True
+        cases.append(c)
     return cases
 
 
